@@ -150,6 +150,13 @@ class World:
                                    obs_descriptors={'conds': ['c1', 'c2', 'c3', 'c1', 'c2', 'c3']},
                                    channel_descriptors={'vox': ['v1', 'v2', 'v3']},
                                    time_descriptors={'time': np.array([0.0, 0.1, 0.2, 0.3])})
+        dn = rng.uniform(0.2, 2, (3, n))
+        dn[:, 2] = np.nan          # a pair missing in every RDM (as after a pattern bootstrap)
+        dn[1, 5] = np.nan          # and one missing in a single RDM (as after from_partials)
+        T['rdms_nan'] = RDMs(dn, dissimilarity_measure='euclidean',
+                             rdm_descriptors={'subj': ['n1', 'n2', 'n3'], 'w': np.array([1.0, 2.0, 0.5])},
+                             pattern_descriptors={'cond': ['c1', 'c2', 'c3', 'c4', 'c5']})
+        T['weights2d'] = rng.uniform(0.5, 1.5, (3, n))
         T['residuals'] = rng.normal(size=(12, nch))
         T['array_stack'] = rng.uniform(0.2, 2, (3, n))
         T['vector'] = rng.uniform(0.2, 2, n)
@@ -306,6 +313,9 @@ def _special(world, qual, pname, owner, variant=0):
             'pool' if 'pool' in name else \
             'compare' if name == 'compare' else 'eval'
         return (METHODS[fam][variant % 3], [])
+    if owner == 'RDMs' and name == 'mean' and pname == 'weights' and variant:
+        # averaging a stack with missing entries under explicit per-entry weights / a weight descriptor
+        return ((T['weights2d'], ['weights2d']) if variant == 1 else ('w', []))
     if owner in ('RDMs',):
         if name in ('subset', 'subsample') and pname == 'by':
             return ('subj', [])
@@ -502,6 +512,8 @@ def call(world, qual, fn, owner, variant=0):
             oname = OWNER_OBJ[owner]
             if owner == 'RDMs' and variant == 1 and name not in ('append',):
                 oname = 'rdms_sub'         # a derived object (shared dicts, non-trivial index)
+            if owner == 'RDMs' and variant and name == 'mean':
+                oname = 'rdms_nan'         # a stack with missing entries
             obj = T[oname]
             bound = getattr(obj, name)
             if name == 'sort_by':
